@@ -19,7 +19,7 @@ EXPLANATION = (
     'outcome (Infeasible, Unbounded, Undefined, Not Solved; variable values left untouched or arbitrary; with a time limit also "stopped at the limit with an '
     'incumbent, reported Optimal"), transient or persistent, single faults at every solve position (incl. the per-rank solves inside generous/greedy) and '
     'pairs of faults. The wall clock is a symbolic non-decreasing clock (a limit stop consumes more than the limit), the time limit is None or a symbolic '
-    'positive real, quotas are symbolic. On every path z3 proves under the path condition: no matching line and no statistics line; "Timeout" is shown iff a '
+    'positive real (quotas concrete). On every path z3 proves under the path condition: no matching line and no statistics line; "Timeout" is shown iff a '
     'limit is set and the run exceeded it or was left Not Solved, otherwise the FIRST non-optimal status is shown.')
 ASSUMPTIONS = ['back end contract for faults: any of the five PuLP statuses at any solve; values after a failed solve are untouched or arbitrary',
                'a time-limit stop consumes more wall time than the limit; clock readings are non-decreasing reals',
@@ -123,8 +123,10 @@ def run_case(I, flags, seq, limit, schedule, persistent, values_mode, getter):
             e.assume(tl > 0)
         clk = Clock()
         ns = repo.load('shim')
+        # quotas are concrete here: the property is about solver outcomes and the clock, and symbolic quotas would only
+        # multiply the paths when the code under test branches on them
         run = e2.run_e2(I, flags, seq, hook_factory=fault_hook(schedule, persistent, values_mode, None),
-                        time_limit=tl, clock=clk)
+                        time_limit=tl, clock=clk, numerics=e2.concrete_numerics(I, 0))
         e.notes['run'] = run
         e.notes['tl'] = tl
         e.notes['clock'] = clk.instants
